@@ -230,7 +230,7 @@ Lemma safe_parse_size s : safe_at 1 (fun _ => True) parse_size s.
 Proof.
   unfold parse_size.
   eapply (safe_bind _ 1%nat 0%nat) with (Q1 := fun _ => True); [apply safe_rd_uv| |lia].
-  intros rem s1 _ _. unfold safe_at. destruct (_ <? _)%Z.
+  intros rem s1 _ _. unfold safe_at. destruct (_ <? _)%N.
   - split; [discriminate|lia].
   - split; [exact I|]. split; lia.
 Qed.
@@ -1450,17 +1450,9 @@ Proof.
   { subst szb. destruct (w_size c).
     - unfold parse_size, tbind. rewrite rd_uv_eq by (unfold two63, two64N in *; lia).
       cbn [s_pos s_in s_alloc]. rewrite !app_length.
-      set (rem := N.of_nat (length bboxb + length contents)) in *.
-      set (lv := length (uv_enc rem)) in *.
-      assert (Hw1 : wrap64 (Z.of_N rem) = Z.of_N rem).
-      { apply wrap64_id. unfold in_i64, two63 in *. lia. }
-      rewrite Hw1.
-      assert (Hw2 : wrap64 (Z.of_N (pos + N.of_nat k1 + N.of_nat lv) + Z.of_N rem) = (Z.of_N pos + Z.of_nat (k1 + lv + length bboxb + length contents))%Z).
-      { rewrite wrap64_id; [unfold rem; lia|]. unfold in_i64, two63 in *. unfold rem. lia. }
-      rewrite Hw2.
-      destruct (Z.ltb_spec (Z.of_N (pos + N.of_nat k1 + N.of_nat lv) + Z.of_nat (length bboxb + (length contents + length rest)))
-                           (Z.of_N pos + Z.of_nat (k1 + lv + length bboxb + length contents))); [lia|].
-      f_equal. f_equal. lia.
+      destruct (N.ltb_spec (N.of_nat (length bboxb + (length contents + length rest)))
+                           (N.of_nat (length bboxb + length contents))); [lia|].
+      f_equal; [lia|f_equal; lia].
     - unfold tret. cbn [app length]. f_equal. f_equal. lia. }
   unfold tbind at 1. rewrite Hsz. clear Hsz.
   (* bounding box *)
@@ -1481,4 +1473,1046 @@ Proof.
   unfold tbind at 1. rewrite Hbbx. clear Hbbx.
   exists (k1 + length szb + length bboxb)%nat, a'. cbn [app]. rewrite Hflen. split; [|lia].
   unfold tret, hdr_of. reflexivity.
+Qed.
+
+(* ---- merging bounding boxes (fix F6) ---- *)
+Definition mergeL (A B : list (Z * Z)) : list (Z * Z) :=
+  map (fun ab => (Z.min (fst (fst ab)) (fst (snd ab)), Z.max (snd (fst ab)) (snd (snd ab)))) (combine A B).
+Definition merge_opt (A B : option (list (Z * Z))) : option (list (Z * Z)) :=
+  match A, B with
+  | None, X => X
+  | X, None => X
+  | Some a, Some b => Some (mergeL a b)
+  end.
+
+Lemma bb_state_merge st sub : bb_state (merge_bb st sub) = merge_opt (bb_state st) (bb_state sub).
+Proof.
+  unfold merge_bb, bb_state. destruct (ws_valid sub); cbn [negb]; [|destruct (ws_valid st); reflexivity].
+  cbn [ws_valid ws_bb]. destruct (ws_valid st); reflexivity.
+Qed.
+
+Lemma mergeL_step a : forall b p,
+  mergeL a (map (fun x : Z * Z * Z => (Z.min (fst (fst x)) (snd x), Z.max (snd (fst x)) (snd x))) (combine b p)) =
+  map (fun x : Z * Z * Z => (Z.min (fst (fst x)) (snd x), Z.max (snd (fst x)) (snd x))) (combine (mergeL a b) p).
+Proof.
+  unfold mergeL. induction a as [|m a IH]; intros [|n b] [|v p]; cbn [combine map]; try reflexivity.
+  rewrite IH. f_equal. cbn [fst snd]. f_equal; lia.
+Qed.
+
+Lemma mergeL_single a : forall p,
+  mergeL a (map (fun v : Z => (v, v)) p) =
+  map (fun x : Z * Z * Z => (Z.min (fst (fst x)) (snd x), Z.max (snd (fst x)) (snd x))) (combine a p).
+Proof.
+  unfold mergeL. induction a as [|m a IH]; intros [|v p]; cbn [combine map]; try reflexivity.
+  rewrite IH. reflexivity.
+Qed.
+
+Lemma merge_step A B p : merge_opt A (env_step B p) = env_step (merge_opt A B) p.
+Proof.
+  destruct A as [a|], B as [b|]; cbn [merge_opt env_step]; try reflexivity.
+  - f_equal. apply mergeL_step.
+  - f_equal. apply mergeL_single.
+Qed.
+
+Lemma fold_merge pts : forall A, merge_opt A (fold_left env_step pts None) = fold_left env_step pts A.
+Proof.
+  induction pts as [|p pts IH] using rev_ind; intros A.
+  - cbn [fold_left]. destruct A; reflexivity.
+  - rewrite !fold_left_app. cbn [fold_left]. rewrite merge_step, IH. reflexivity.
+Qed.
+
+Lemma merge_bb_ok d st sub : wst_ok d st -> wst_ok d sub -> wst_ok d (merge_bb st sub).
+Proof.
+  intros [H1 [H2 H3]] [G1 [G2 G3]]. unfold merge_bb.
+  destruct (ws_valid sub); cbn [negb]; [|repeat split; assumption].
+  unfold wst_ok. cbn [ws_ref ws_bb]. destruct (ws_valid st); cbn [negb].
+  - split; [exact H1|]. split.
+    + rewrite map_length, combine_length. lia.
+    + clear H1 G1. revert H2 G2 H3 G3. generalize (ws_bb st) (ws_bb sub). intros a. revert d.
+      induction a as [|m a IH]; intros d [|n b] Ha Hb Hfa Hfb; cbn [combine map]; constructor.
+      * inversion Hfa as [|? ? [A1 [A2 A3]] _]; subst. inversion Hfb as [|? ? [B1 [B2 B3]] _]; subst.
+        unfold i64pair, in_i64 in *. cbn [fst snd]. lia.
+      * cbn [length] in *. apply (IH (pred d)); try lia; [inversion Hfa|inversion Hfb]; assumption.
+  - repeat split; assumption.
+Qed.
+
+(* ---- emptiness ---- *)
+Lemma empty_no_vs : forall g : zgeom, is_empty g = true -> geom_vs g = [].
+Proof.
+  assert (Hfm : forall {A} (e : A -> bool) (vs : A -> list (vtx Z)) l,
+             (forall x, e x = true -> vs x = []) -> forallb e l = true -> flat_map vs l = []).
+  { intros A e vs l H. induction l as [|x l IH]; cbn [forallb flat_map]; intros Hl; [reflexivity|].
+    apply andb_true_iff in Hl. destruct Hl as [H1 H2]. rewrite (H x H1), IH by exact H2. reflexivity. }
+  induction g as [p|l|p|c ps|c ls|c ps|c gs IH] using geomT_ind'; cbn [is_empty geom_vs]; intros H.
+  - destruct p as [c' [v|]]; cbn in *; [discriminate|reflexivity].
+  - destruct l as [c' [|v vs]]; cbn in *; [reflexivity|discriminate].
+  - destruct p as [c' [|r rs]]; cbn in *; [reflexivity|discriminate].
+  - apply (Hfm _ (@point_empty Z)); [|exact H]. intros [c' [v|]]; cbn; [discriminate|reflexivity].
+  - apply (Hfm _ (@line_empty Z)); [|exact H]. intros [c' [|v vs]]; cbn; [reflexivity|discriminate].
+  - apply (Hfm _ (@poly_empty Z)); [|exact H]. intros [c' [|r rs]]; cbn; [reflexivity|discriminate].
+  - induction gs as [|x gs IHg]; cbn [forallb flat_map] in *; [reflexivity|].
+    apply andb_true_iff in H. destruct H as [H1 H2]. inversion IH; subst.
+    rewrite H3 by exact H1. rewrite IHg by assumption. reflexivity.
+Qed.
+
+(* ---- the main statement ---- *)
+Definition gpts (ct : ctype) (g : zgeom) : list (list Z) := map (vords ct) (geom_vs g).
+
+Definition dec_ids (c : wcfg) (g : zgeom) : list Z :=
+  if is_empty g then []
+  else match g with
+       | GMPoint _ _ | GMLine _ _ | GMPoly _ _ | GColl _ _ => w_ids c
+       | _ => []
+       end.
+
+Definition ids_ok (c : wcfg) (g : zgeom) : Prop :=
+  w_hasids c = true -> is_empty g = false ->
+  match g with
+  | GMPoint _ l => length (w_ids c) = length l
+  | GMLine _ l => length (w_ids c) = length l
+  | GMPoly _ l => length (w_ids c) = length l
+  | GColl _ l => length (w_ids c) = length l
+  | _ => False
+  end.
+
+Definition expected_hdr (c : wcfg) (g : zgeom) (st : wst) (doclen : nat) : thdr :=
+  if is_empty g then empty_hdr c (kind_of (geom_type g))
+  else hdr_of c (kind_of (geom_type g)) st (if w_size c then Z.of_nat doclen else 0%Z).
+
+Definition gspec (c : wcfg) (g : zgeom) : Prop :=
+  exists doc st, twrite c g = Ok (doc, st) /\ wst_ok (dim (w_ct c)) st /\ (2 <= length doc)%nat /\
+    bb_state st = fold_left env_step (gpts (w_ct c) g) None /\
+    forall fuel rest a, (length doc < fuel)%nat -> (Z.of_nat (length doc) < two63)%Z ->
+      exists a', zrd_geom fuel {| s_in := doc ++ rest; s_pos := 0; s_alloc := a |} =
+        TOk (tolerated g, expected_hdr c g st (length doc), dec_ids c g)
+            {| s_in := rest; s_pos := N.of_nat (length doc); s_alloc := a' |}.
+
+Lemma kind_lt t : (kind_of t < 16)%N.
+Proof. destruct t; cbn; lia. Qed.
+
+Lemma form_len c kind st contents : (2 <= length (form c kind st contents))%nat.
+Proof. unfold form. cbn [app length]. lia. Qed.
+
+(* headers followed by a body parser *)
+Lemma glue c kind st contents (K : thdr -> TP (zgeom * thdr * list Z)) gres ids rest a :
+  cfg_ok c -> (kind < 16)%N ->
+  (w_hasids c = true -> ((kind =? 1) || (kind =? 2) || (kind =? 3))%N = false) ->
+  wst_ok (dim (w_ct c)) st ->
+  (Z.of_nat (length (form c kind st contents)) < two63)%Z ->
+  (forall sz, parses (K (hdr_of c kind st sz)) contents (gres, hdr_of c kind st sz, ids)) ->
+  exists a', tbind parse_headers K {| s_in := form c kind st contents ++ rest; s_pos := 0; s_alloc := a |} =
+    TOk (gres, hdr_of c kind st (if w_size c then Z.of_nat (length (form c kind st contents)) else 0%Z), ids)
+        {| s_in := rest; s_pos := N.of_nat (length (form c kind st contents)); s_alloc := a' |}.
+Proof.
+  intros Hc Hk Hkid Hst Hlen HK.
+  destruct (headers_spec c kind st contents rest 0%N a Hc Hk Hkid Hst ltac:(lia)) as [hl [a1 [E Hl]]].
+  unfold tbind. rewrite E.
+  destruct (HK (if w_size c then (Z.of_N 0 + Z.of_nat (length (form c kind st contents)))%Z else 0%Z)
+               rest (0 + N.of_nat hl)%N a1) as [a2 E2].
+  rewrite E2. exists a2. cbn [Z.of_N Z.add]. f_equal. f_equal. rewrite Hl. lia.
+Qed.
+
+Lemma init_ref d : ws_ref (init_wst d) = repeat 0%Z d.
+Proof. reflexivity. Qed.
+Lemma init_bb d : bb_state (init_wst d) = None.
+Proof. reflexivity. Qed.
+
+Lemma hdr_ct c kind st sz : h_ct (hdr_of c kind st sz) = w_ct c.
+Proof. reflexivity. Qed.
+
+Lemma map_flat_map {A B C} (f : B -> C) (g : A -> list B) l :
+  map f (flat_map g l) = flat_map (fun x => map f (g x)) l.
+Proof. induction l as [|x l IH]; cbn [flat_map map]; [reflexivity|]. rewrite map_app, IH. reflexivity. Qed.
+
+Lemma gspec_empty c g :
+  (-8 <= w_pxy c <= 7)%Z -> geom_ct g = w_ct c -> is_empty g = true -> gspec c g.
+Proof.
+  intros Hp Hct He. unfold gspec.
+  exists (empty_doc c (kind_of (geom_type g))), (init_wst (dim (w_ct c))).
+  assert (Htw : twrite c g = Ok (empty_doc c (kind_of (geom_type g)), init_wst (dim (w_ct c)))).
+  { destruct g; cbn [twrite geom_ct is_empty]; cbn [geom_ct is_empty] in Hct, He;
+      rewrite Hct, ct_eqb_refl; cbn [negb]; rewrite He; reflexivity. }
+  split; [exact Htw|]. split; [apply init_wst_ok|]. split; [cbn; lia|].
+  split; [unfold gpts; rewrite (empty_no_vs g He); reflexivity|].
+  intros fuel rest a Hf _. destruct fuel as [|f]; [lia|].
+  exists a. cbn [rd_geom]. unfold tbind.
+  rewrite (empty_headers_spec c (kind_of (geom_type g)) rest 0 a Hp (kind_lt _)).
+  unfold tolerated, expected_hdr, dec_ids. rewrite He.
+  cbn [h_kind h_empty empty_hdr h_ct h_hasz h_hasm mk_ct].
+  destruct g; cbn [geom_type kind_of plain_empty]; unfold tret; reflexivity.
+Qed.
+
+Ltac finish_gspec doc st Htw Hst Hbb :=
+  exists doc, st; split; [exact Htw|]; split; [exact Hst|]; split; [apply form_len|]; split; [exact Hbb|].
+
+Lemma gspec_point c p :
+  cfg_ok c -> w_hasids c = false -> point_ok (Z.eqb 0) (w_ct c) p = true ->
+  is_empty (GPoint p) = false ->
+  match point_c p with None => true | Some v => vtx_i64 v end = true -> gspec c (GPoint p).
+Proof.
+  intros Hc Hnoid Hok Hne Hdom. set (ct := w_ct c) in *.
+  assert (Hpc : match point_c p with None => false | Some v => vtx_i64 v end = true).
+  { destruct p as [c' [v|]]; cbn in *; [exact Hdom|discriminate]. }
+  set (h0 := hdr_of c 1%N (init_wst (dim ct)) 0%Z).
+  destruct (point_wspec ct h0 p eq_refl Hok Hpc (init_wst (dim ct)) (init_wst_ok _))
+    as [bs [st [E [Hst [_ [Hlen Hbb]]]]]].
+  assert (Hct : point_ct p = ct).
+  { destruct p as [c' o]. cbn [point_ok] in Hok. apply andb_true_iff in Hok. destruct Hok as [Hc' _].
+    apply ct_eqb_eq in Hc'. exact Hc'. }
+  assert (Htw : twrite c (GPoint p) = Ok (form c 1%N st bs, st)).
+  { cbn [twrite geom_ct geom_type kind_of]. fold ct. rewrite Hct, ct_eqb_refl. cbn [negb].
+    rewrite Hne. unfold wr_mpoint_member in E. destruct (point_c p) as [v|]; [|discriminate].
+    rewrite E. reflexivity. }
+  assert (Hbb' : bb_state st = fold_left env_step (gpts ct (GPoint p)) None).
+  { rewrite init_bb in Hbb. rewrite Hbb. unfold gpts. cbn [geom_vs]. unfold point_vs.
+    destruct (point_c p); reflexivity. }
+  finish_gspec (form c 1%N st bs) st Htw Hst Hbb'.
+  intros fuel rest a Hf Hlen63. destruct fuel as [|f]; [lia|].
+  cbn [rd_geom].
+  unfold tolerated, expected_hdr, dec_ids. rewrite Hne. cbn [tol_member geom_type kind_of].
+  rewrite Hne.
+  eapply glue; try assumption; try (cbn; lia).
+  - intros E1. rewrite Hnoid in E1. discriminate.
+  - intros sz. cbn [h_kind hdr_of h_empty]. rewrite hdr_ct. fold ct.
+    destruct (point_wspec ct (hdr_of c 1%N st sz) p eq_refl Hok Hpc (init_wst (dim ct)) (init_wst_ok _))
+      as [bs' [st' [E' [_ [Hpar' _]]]]].
+    rewrite E in E'. inversion E'; subst bs' st'.
+    rewrite <- (app_nil_r bs). eapply parses_bind; [exact Hpar'|]. cbn [fst]. apply parses_ret.
+Qed.
+
+Lemma gspec_line c l :
+  cfg_ok c -> w_hasids c = false -> line_ok (Z.eqb 0) (w_ct c) l = true ->
+  is_empty (GLine l) = false -> line_dom l = true -> gspec c (GLine l).
+Proof.
+  intros Hc Hnoid Hok Hne Hdom. set (ct := w_ct c) in *.
+  set (h0 := hdr_of c 2%N (init_wst (dim ct)) 0%Z).
+  destruct (line_wspec ct h0 l eq_refl Hok Hdom (init_wst (dim ct)) (init_wst_ok _))
+    as [bs [st [E [Hst [_ [Hlen Hbb]]]]]].
+  assert (Hct : line_ct l = ct).
+  { destruct l as [c' o]. cbn [line_ok] in Hok. apply andb_true_iff in Hok. destruct Hok as [Hc' _].
+    apply ct_eqb_eq in Hc'. exact Hc'. }
+  assert (Htw : twrite c (GLine l) = Ok (form c 2%N st bs, st)).
+  { cbn [twrite geom_ct geom_type kind_of]. fold ct. rewrite Hct, ct_eqb_refl. cbn [negb].
+    rewrite Hne. rewrite E. reflexivity. }
+  assert (Hbb' : bb_state st = fold_left env_step (gpts ct (GLine l)) None).
+  { rewrite init_bb in Hbb. exact Hbb. }
+  finish_gspec (form c 2%N st bs) st Htw Hst Hbb'.
+  intros fuel rest a Hf Hlen63. destruct fuel as [|f]; [lia|].
+  cbn [rd_geom].
+  unfold tolerated, expected_hdr, dec_ids. rewrite Hne. cbn [tol_member geom_type kind_of].
+  rewrite Hne.
+  eapply glue; try assumption; try (cbn; lia).
+  - intros E1. rewrite Hnoid in E1. discriminate.
+  - intros sz. cbn [h_kind hdr_of h_empty]. rewrite hdr_ct. fold ct.
+    destruct (line_wspec ct (hdr_of c 2%N st sz) l eq_refl Hok Hdom (init_wst (dim ct)) (init_wst_ok _))
+      as [bs' [st' [E' [_ [Hpar' _]]]]].
+    rewrite E in E'. inversion E'; subst bs' st'.
+    rewrite <- (app_nil_r bs). eapply parses_bind; [exact Hpar'|]. cbn [fst]. apply parses_ret.
+Qed.
+
+Lemma poly_gpts ct p : poly_ptsof ct p = map (vords ct) (poly_vs p).
+Proof. unfold poly_ptsof, poly_vs, ring_ptsof. rewrite map_flat_map. reflexivity. Qed.
+
+Lemma gspec_poly c p :
+  cfg_ok c -> w_hasids c = false -> poly_ok (Z.eqb 0) (w_ct c) p = true ->
+  is_empty (GPoly p) = false -> poly_dom (ring_dom (w_close c)) p = true -> gspec c (GPoly p).
+Proof.
+  intros Hc Hnoid Hok Hne Hdom. set (ct := w_ct c) in *.
+  set (h0 := hdr_of c 3%N (init_wst (dim ct)) 0%Z).
+  destruct (poly_wspec (w_close c) ct h0 p eq_refl Hok Hdom (init_wst (dim ct)) (init_wst_ok _))
+    as [bs [st [E [Hst [_ [Hlen Hbb]]]]]].
+  assert (Hct : poly_ct p = ct).
+  { destruct p as [c' o]. cbn [poly_ok] in Hok. apply andb_true_iff in Hok. destruct Hok as [Hc' _].
+    apply ct_eqb_eq in Hc'. exact Hc'. }
+  assert (Htw : twrite c (GPoly p) = Ok (form c 3%N st bs, st)).
+  { cbn [twrite geom_ct geom_type kind_of]. fold ct. rewrite Hct, ct_eqb_refl. cbn [negb].
+    rewrite Hne. rewrite E. reflexivity. }
+  assert (Hbb' : bb_state st = fold_left env_step (gpts ct (GPoly p)) None).
+  { rewrite init_bb in Hbb. rewrite Hbb. unfold gpts. cbn [geom_vs]. rewrite poly_gpts. reflexivity. }
+  finish_gspec (form c 3%N st bs) st Htw Hst Hbb'.
+  intros fuel rest a Hf Hlen63. destruct fuel as [|f]; [lia|].
+  cbn [rd_geom].
+  unfold tolerated, expected_hdr, dec_ids. rewrite Hne. cbn [tol_member geom_type kind_of].
+  rewrite Hne.
+  eapply glue; try assumption; try (cbn; lia).
+  - intros E1. rewrite Hnoid in E1. discriminate.
+  - intros sz. cbn [h_kind hdr_of h_empty]. rewrite hdr_ct. fold ct.
+    destruct (poly_wspec (w_close c) ct (hdr_of c 3%N st sz) p eq_refl Hok Hdom (init_wst (dim ct)) (init_wst_ok _))
+      as [bs' [st' [E' [_ [Hpar' _]]]]].
+    rewrite E in E'. inversion E'; subst bs' st'.
+    rewrite <- (app_nil_r bs). eapply parses_bind; [exact Hpar'|]. cbn [fst]. apply parses_ret.
+Qed.
+
+(* ---- Multi*: count, ID list, members written with the threaded state ---- *)
+Lemma count_bytes_assoc {A} (l : list A) ids bs :
+  count_bytes l ++ ids ++ bs = (uv_enc (N.of_nat (length l)) ++ ids) ++ bs.
+Proof. unfold count_bytes. rewrite app_assoc. reflexivity. Qed.
+
+Lemma gspec_mline c ct' ls :
+  cfg_ok c -> geom_ok (Z.eqb 0) (w_ct c) (GMLine ct' ls) = true ->
+  is_empty (GMLine ct' ls) = false ->
+  geom_dom (ring_dom (w_close c)) (GMLine ct' ls) = true -> ids_ok c (GMLine ct' ls) ->
+  gspec c (GMLine ct' ls).
+Proof.
+  intros Hc Hok Hne Hdom Hids. set (ct := w_ct c) in *.
+  cbn [geom_ok] in Hok. apply andb_true_iff in Hok. destruct Hok as [Hct Hoks].
+  apply ct_eqb_eq in Hct. subst ct'.
+  cbn [geom_dom] in Hdom. apply andb_true_iff in Hdom. destruct Hdom as [Hcnt Hdoms].
+  assert (HF : forall h, h_ct h = ct ->
+             Forall (wspec (dim ct) 1 (wr_line ct) (znext_line h) (fun l => map (vords ct) (line_vs l))) ls).
+  { intros h Hh. apply forallb_Forall in Hoks. apply forallb_Forall in Hdoms. rewrite Forall_forall in *.
+    intros l Hl. apply line_wspec; [exact Hh|apply Hoks; exact Hl|apply Hdoms; exact Hl]. }
+  set (st0 := init_wst (dim ct)).
+  destruct (wr_seq_spec (dim ct) 1 _ _ _ (le_n 1) ls st0 (HF (hdr_of c 5%N st0 0%Z) eq_refl) (init_wst_ok _))
+    as [bs [st [E [Hst [_ [Hlen Hbb]]]]]].
+  assert (Hidlen : w_hasids c = true -> length (w_ids c) = length ls).
+  { intros Hh. exact (Hids Hh Hne). }
+  pose proof Hc as [Hc1 [Hc2 [Hc3 Hc4]]].
+  destruct (ids_spec c (length ls) 1 ltac:(lia) Hcnt Hc4 Hidlen) as [idb [Eids HparL]].
+  assert (Htw : twrite c (GMLine ct ls) = Ok (form c 5%N st (count_bytes ls ++ idb ++ bs), st)).
+  { cbn [twrite geom_ct geom_type kind_of]. fold ct. rewrite ct_eqb_refl. cbn [negb].
+    rewrite Hne. rewrite Eids. cbn [bind]. fold st0. rewrite E. reflexivity. }
+  assert (Hbb' : bb_state st = fold_left env_step (gpts ct (GMLine ct ls)) None).
+  { rewrite Hbb. unfold gpts. cbn [geom_vs]. rewrite map_flat_map. reflexivity. }
+  finish_gspec (form c 5%N st (count_bytes ls ++ idb ++ bs)) st Htw Hst Hbb'.
+  intros fuel rest a Hf Hlen63. destruct fuel as [|f]; [lia|].
+  cbn [rd_geom].
+  unfold tolerated, expected_hdr, dec_ids. rewrite Hne. cbn [tol_member geom_type kind_of].
+  rewrite Hne.
+  eapply glue; try assumption; try (cbn; lia).
+  intros sz. cbn [h_kind hdr_of h_empty h_hasids]. rewrite hdr_ct. fold ct.
+    destruct (wr_seq_spec (dim ct) 1 _ _ _ (le_n 1) ls st0 (HF (hdr_of c 5%N st sz) eq_refl) (init_wst_ok _))
+      as [bs' [st' [E' [_ [Hpar' _]]]]].
+    rewrite E in E'. inversion E'; subst bs' st'.
+    rewrite count_bytes_assoc.
+    eapply parsesL_bind; [exact HparL| |lia].
+    cbn [fst snd]. rewrite <- (app_nil_r bs).
+    eapply parses_bind; [apply (tloop_in_parses _ _ _ _ _ (length ls)); [exact Hpar'|lia]|].
+    cbn [fst snd].
+    assert (Hnil : ls <> []) by (intros ->; cbn in Hne; discriminate).
+    rewrite (new_multiline_id ct ls Hnil Hoks). apply parses_ret.
+Qed.
+
+Lemma gspec_mpoly c ct' ps :
+  cfg_ok c -> geom_ok (Z.eqb 0) (w_ct c) (GMPoly ct' ps) = true ->
+  is_empty (GMPoly ct' ps) = false ->
+  geom_dom (ring_dom (w_close c)) (GMPoly ct' ps) = true -> ids_ok c (GMPoly ct' ps) ->
+  gspec c (GMPoly ct' ps).
+Proof.
+  intros Hc Hok Hne Hdom Hids. set (ct := w_ct c) in *.
+  cbn [geom_ok] in Hok. apply andb_true_iff in Hok. destruct Hok as [Hct Hoks].
+  apply ct_eqb_eq in Hct. subst ct'.
+  cbn [geom_dom] in Hdom. apply andb_true_iff in Hdom. destruct Hdom as [Hcnt Hdoms].
+  assert (HF : forall h, h_ct h = ct ->
+             Forall (wspec (dim ct) 1 (wr_poly (w_close c) ct) (znext_poly h) (poly_ptsof ct)) ps).
+  { intros h Hh. apply forallb_Forall in Hoks. apply forallb_Forall in Hdoms. rewrite Forall_forall in *.
+    intros l Hl. apply poly_wspec; [exact Hh|apply Hoks; exact Hl|apply Hdoms; exact Hl]. }
+  set (st0 := init_wst (dim ct)).
+  destruct (wr_seq_spec (dim ct) 1 _ _ _ (le_n 1) ps st0 (HF (hdr_of c 6%N st0 0%Z) eq_refl) (init_wst_ok _))
+    as [bs [st [E [Hst [_ [Hlen Hbb]]]]]].
+  assert (Hidlen : w_hasids c = true -> length (w_ids c) = length ps).
+  { intros Hh. exact (Hids Hh Hne). }
+  pose proof Hc as [Hc1 [Hc2 [Hc3 Hc4]]].
+  destruct (ids_spec c (length ps) 1 ltac:(lia) Hcnt Hc4 Hidlen) as [idb [Eids HparL]].
+  assert (Htw : twrite c (GMPoly ct ps) = Ok (form c 6%N st (count_bytes ps ++ idb ++ bs), st)).
+  { cbn [twrite geom_ct geom_type kind_of]. fold ct. rewrite ct_eqb_refl. cbn [negb].
+    rewrite Hne. rewrite Eids. cbn [bind]. fold st0. rewrite E. reflexivity. }
+  assert (Hbb' : bb_state st = fold_left env_step (gpts ct (GMPoly ct ps)) None).
+  { rewrite Hbb. unfold gpts. cbn [geom_vs]. rewrite map_flat_map. f_equal.
+    apply flat_map_ext. intros p. apply poly_gpts. }
+  finish_gspec (form c 6%N st (count_bytes ps ++ idb ++ bs)) st Htw Hst Hbb'.
+  intros fuel rest a Hf Hlen63. destruct fuel as [|f]; [lia|].
+  cbn [rd_geom].
+  unfold tolerated, expected_hdr, dec_ids. rewrite Hne. cbn [tol_member geom_type kind_of].
+  rewrite Hne.
+  eapply glue; try assumption; try (cbn; lia).
+  intros sz.
+  cbn [h_kind hdr_of h_empty h_hasids]. rewrite hdr_ct. fold ct.
+  destruct (wr_seq_spec (dim ct) 1 _ _ _ (le_n 1) ps st0 (HF (hdr_of c 6%N st sz) eq_refl) (init_wst_ok _))
+    as [bs' [st' [E' [_ [Hpar' _]]]]].
+  rewrite E in E'. inversion E'; subst bs' st'.
+  rewrite count_bytes_assoc.
+  eapply parsesL_bind; [exact HparL| |lia].
+  cbn [fst snd]. rewrite <- (app_nil_r bs).
+  eapply parses_bind; [apply (tloop_in_parses _ _ _ _ _ (length ps)); [exact Hpar'|lia]|].
+  cbn [fst snd].
+  assert (Hnil : ps <> []) by (intros ->; cbn in Hne; discriminate).
+  rewrite (new_multipoly_id ct ps Hnil Hoks). apply parses_ret.
+Qed.
+
+Lemma gspec_mpoint c ct' ps :
+  cfg_ok c -> geom_ok (Z.eqb 0) (w_ct c) (GMPoint ct' ps) = true ->
+  is_empty (GMPoint ct' ps) = false ->
+  geom_dom (ring_dom (w_close c)) (GMPoint ct' ps) = true -> ids_ok c (GMPoint ct' ps) ->
+  gspec c (GMPoint ct' ps).
+Proof.
+  intros Hc Hok Hne Hdom Hids. set (ct := w_ct c) in *.
+  cbn [geom_ok] in Hok. apply andb_true_iff in Hok. destruct Hok as [Hct Hoks].
+  apply ct_eqb_eq in Hct. subst ct'.
+  cbn [geom_dom] in Hdom. apply andb_true_iff in Hdom. destruct Hdom as [Hcnt Hdoms].
+  cbn [is_empty] in Hne. rewrite Hne in Hdoms. cbn [orb] in Hdoms.
+  set (ptsof := fun p : pointT Z => match point_c p with Some v => [vords ct v] | None => [] end).
+  assert (HF : forall h, h_ct h = ct ->
+             Forall (wspec (dim ct) (dim ct) (wr_mpoint_member ct) (znext_point h) ptsof) ps).
+  { intros h Hh. apply forallb_Forall in Hoks. apply forallb_Forall in Hdoms. rewrite Forall_forall in *.
+    intros l Hl. apply point_wspec; [exact Hh|apply Hoks; exact Hl|apply Hdoms; exact Hl]. }
+  set (st0 := init_wst (dim ct)).
+  pose proof (dim_pos ct) as Hdp.
+  destruct (wr_seq_spec (dim ct) (dim ct) _ _ _ Hdp ps st0 (HF (hdr_of c 4%N st0 0%Z) eq_refl) (init_wst_ok _))
+    as [bs [st [E [Hst [_ [Hlen Hbb]]]]]].
+  assert (Hne' : is_empty (GMPoint ct ps) = false) by exact Hne.
+  assert (Hidlen : w_hasids c = true -> length (w_ids c) = length ps).
+  { intros Hh. exact (Hids Hh Hne'). }
+  pose proof Hc as [Hc1 [Hc2 [Hc3 Hc4]]].
+  destruct (ids_spec c (length ps) (dim ct) Hdp Hcnt Hc4 Hidlen) as [idb [Eids HparL]].
+  assert (Htw : twrite c (GMPoint ct ps) = Ok (form c 4%N st (count_bytes ps ++ idb ++ bs), st)).
+  { cbn [twrite geom_ct geom_type kind_of is_empty]. fold ct. rewrite ct_eqb_refl. cbn [negb].
+    rewrite Hne. rewrite Eids. cbn [bind]. fold st0. rewrite E. reflexivity. }
+  assert (Hbb' : bb_state st = fold_left env_step (gpts ct (GMPoint ct ps)) None).
+  { rewrite Hbb. unfold gpts. cbn [geom_vs]. rewrite map_flat_map. f_equal.
+    apply flat_map_ext. intros p. unfold ptsof, point_vs. destruct (point_c p); reflexivity. }
+  finish_gspec (form c 4%N st (count_bytes ps ++ idb ++ bs)) st Htw Hst Hbb'.
+  intros fuel rest a Hf Hlen63. destruct fuel as [|f]; [lia|].
+  cbn [rd_geom].
+  unfold tolerated, expected_hdr, dec_ids. rewrite Hne'. cbn [tol_member geom_type kind_of].
+  rewrite Hne'.
+  eapply glue; try assumption; try (cbn; lia).
+  intros sz.
+  cbn [h_kind hdr_of h_empty h_hasids]. rewrite hdr_ct. fold ct.
+  destruct (wr_seq_spec (dim ct) (dim ct) _ _ _ Hdp ps st0 (HF (hdr_of c 4%N st sz) eq_refl) (init_wst_ok _))
+    as [bs' [st' [E' [_ [Hpar' _]]]]].
+  rewrite E in E'. inversion E'; subst bs' st'.
+  rewrite count_bytes_assoc.
+  eapply parsesL_bind; [exact HparL| |lia].
+  cbn [fst snd]. rewrite <- (app_nil_r bs).
+  eapply parses_bind; [apply (tloop_in_parses _ _ _ _ _ (length ps)); [exact Hpar'|nia]|].
+  cbn [fst snd].
+  assert (Hnil : ps <> []) by (intros ->; cbn in Hne; discriminate).
+  rewrite (new_multipoint_id ct ps Hnil Hoks). apply parses_ret.
+Qed.
+
+(* ---- collections ---- *)
+Fixpoint wr_members (c : wcfg) (st : wst) (l : list zgeom) : outcome (list N * wst) :=
+  match l with
+  | [] => Ok ([], st)
+  | x :: r =>
+      do (b1, s1) <- twrite (sub_cfg c) x;
+      do (b2, s2) <- wr_members c (merge_bb st s1) r;
+      Ok (b1 ++ b2, s2)
+  end.
+
+Lemma twrite_coll c ct' gs :
+  twrite c (GColl ct' gs) =
+  if negb (ct_eqb ct' (w_ct c)) then Err ECollDims
+  else if is_empty (GColl ct' gs) then Ok (empty_doc c 7%N, init_wst (dim (w_ct c)))
+  else do ids <- wr_ids c (length gs);
+       do (bs, st) <- wr_members c (init_wst (dim (w_ct c))) gs;
+       Ok (form c 7%N st (count_bytes gs ++ ids ++ bs), st).
+Proof.
+  cbn [twrite geom_ct geom_type kind_of].
+  destruct (negb (ct_eqb ct' (w_ct c))); [reflexivity|].
+  destruct (is_empty (GColl ct' gs)); [reflexivity|].
+  destruct (wr_ids c (length gs)); cbn [bind]; try reflexivity.
+  match goal with |- bind (?F _ gs) _ = _ => assert (HE : forall l st, F st l = wr_members c st l) end.
+  { induction l as [|x l IH]; intros st; cbn [wr_members]; [reflexivity|].
+    destruct (twrite (sub_cfg c) x) as [[b1 s1]| |]; cbn [bind]; try reflexivity.
+    rewrite IH. reflexivity. }
+  rewrite HE. reflexivity.
+Qed.
+
+Definition stepf (f : nat) (ct : ctype) : list Z -> TP (zgeom * list Z) := fun (_ : list Z) (s : pst) =>
+  match zrd_geom f {| s_in := s_in s; s_pos := 0; s_alloc := s_alloc s |} with
+  | TOk (g, hs, _) s' =>
+      TOk (if h_empty hs then force_geom 0%Z ct g else g, [])
+          {| s_in := s_in s'; s_pos := (s_pos s + s_pos s')%N; s_alloc := s_alloc s' |}
+  | TErr e a => TErr e a
+  | TPanic p a => TPanic p a
+  end.
+
+Definition tol_child (ct : ctype) (x : zgeom) : zgeom :=
+  if is_empty x then force_geom 0%Z ct (tolerated x) else tolerated x.
+
+Lemma sub_cfg_ok c : cfg_ok c -> cfg_ok (sub_cfg c).
+Proof. intros [H1 [H2 [H3 H4]]]. unfold cfg_ok, sub_cfg. cbn. repeat split; try lia; try constructor. Qed.
+
+Lemma child_step c f x :
+  gspec (sub_cfg c) x ->
+  exists doc st, twrite (sub_cfg c) x = Ok (doc, st) /\ wst_ok (dim (w_ct c)) st /\
+    (2 <= length doc)%nat /\ bb_state st = fold_left env_step (gpts (w_ct c) x) None /\
+    ((length doc < f)%nat -> (Z.of_nat (length doc) < two63)%Z ->
+     parses (stepf f (w_ct c) []) doc (tol_child (w_ct c) x, [])).
+Proof.
+  intros [doc [st [E [Hst [Hl [Hbb Hdec]]]]]]. exists doc, st.
+  split; [exact E|]. split; [exact Hst|]. split; [exact Hl|]. split; [exact Hbb|].
+  intros Hf H63 rest pos a. unfold stepf. cbn [s_in s_alloc s_pos].
+  destruct (Hdec f rest a Hf H63) as [a' Ed]. rewrite Ed. exists a'.
+  unfold tol_child, expected_hdr. destruct (is_empty x); cbn [h_empty empty_hdr hdr_of]; reflexivity.
+Qed.
+
+Lemma coll_members c : forall gs st,
+  Forall (gspec (sub_cfg c)) gs -> wst_ok (dim (w_ct c)) st ->
+  exists bs st', wr_members c st gs = Ok (bs, st') /\ wst_ok (dim (w_ct c)) st' /\
+    (length gs * 2 <= length bs)%nat /\
+    bb_state st' = fold_left env_step (flat_map (gpts (w_ct c)) gs) (bb_state st) /\
+    (forall fuel f, (length gs <= fuel)%nat -> (length bs < f)%nat -> (Z.of_nat (length bs) < two63)%Z ->
+       parses (tloop fuel (Z.of_nat (length gs)) (stepf f (w_ct c)) []) bs
+              (map (tol_child (w_ct c)) gs, [])).
+Proof.
+  induction gs as [|x gs IH]; intros st HF Hst.
+  - exists [], st. cbn [wr_members length flat_map fold_left map]. repeat split; try apply Hst; try lia.
+    intros fuel f _ _ _. destruct fuel; cbn [tloop Z.of_nat Z.leb Z.compare]; apply parses_ret.
+  - inversion HF as [|? ? Hx HF']; subst.
+    destruct (child_step c 0 x Hx) as [doc [cst [E [Hcst [Hl [Hbb _]]]]]].
+    destruct (IH (merge_bb st cst) HF' (merge_bb_ok _ _ _ Hst Hcst)) as [bs [st' [E2 [Hst' [Hl2 [Hbb2 Hp2]]]]]].
+    exists (doc ++ bs), st'. cbn [wr_members]. rewrite E. cbn [bind]. rewrite E2. cbn [bind].
+    repeat split; try apply Hst'.
+    + rewrite app_length. cbn [length]. lia.
+    + rewrite Hbb2, bb_state_merge, Hbb, fold_merge. cbn [flat_map]. rewrite fold_left_app. reflexivity.
+    + intros fuel f Hfu Hf H63. destruct fuel as [|fuel]; [cbn [length] in Hfu; lia|].
+      rewrite app_length in *.
+      destruct (child_step c f x Hx) as [doc' [cst' [E' [_ [_ [_ Hstep]]]]]].
+      rewrite E in E'. inversion E'; subst doc' cst'.
+      cbn [tloop length map]. destruct (Z.leb_spec (Z.of_nat (S (length gs))) 0); [lia|].
+      eapply parses_bind; [apply Hstep; lia|]. cbn [fst snd].
+      rewrite <- (app_nil_r bs).
+      replace (Z.of_nat (S (length gs)) - 1)%Z with (Z.of_nat (length gs)) by lia.
+      eapply parses_bind; [apply Hp2; [cbn [length] in Hfu; lia|lia|lia]|]. cbn [fst snd]. apply parses_ret.
+Qed.
+
+Lemma plain_empty_ok ct t : geom_ok (Z.eqb 0) ct (plain_empty t ct) = true.
+Proof. destruct t; cbn; rewrite ct_eqb_refl; reflexivity. Qed.
+
+Lemma force_plain ct t : force_geom 0%Z ct (plain_empty t XY) = plain_empty t ct.
+Proof. destruct t; reflexivity. Qed.
+
+Lemma tol_member_ok ct : forall x : zgeom, geom_ok (Z.eqb 0) ct x = true -> geom_ok (Z.eqb 0) ct (tol_member x) = true.
+Proof.
+  induction x as [p|l|p|c ps|c ls|c ps|c gs IH] using geomT_ind'; intros H;
+    pose proof (proj2 (force_geom_id ct _ H)) as Hct.
+  1-6: (cbn [tol_member]; match goal with |- context [is_empty ?g] => destruct (is_empty g) end;
+        [rewrite Hct; apply plain_empty_ok|exact H]).
+  cbn [tol_member]. destruct (is_empty (GColl c gs)); [rewrite Hct; apply plain_empty_ok|].
+  cbn [geom_ok] in *. apply andb_true_iff in H. destruct H as [H1 H2]. rewrite H1. cbn [andb].
+  apply forallb_Forall. apply Forall_map. apply forallb_Forall in H2.
+  rewrite Forall_forall in *. intros x Hx. apply IH; [exact Hx|apply H2; exact Hx].
+Qed.
+
+Lemma tol_child_member ct x : geom_ok (Z.eqb 0) ct x = true -> tol_child ct x = tol_member x.
+Proof.
+  intros H. pose proof (proj2 (force_geom_id ct _ H)) as Hct.
+  unfold tol_child, tolerated. destruct x; cbn [tol_member]; 
+    match goal with |- context [is_empty ?g] => destruct (is_empty g) eqn:E end; try reflexivity;
+    rewrite force_plain, Hct; reflexivity.
+Qed.
+
+Lemma gspec_coll c ct' gs :
+  cfg_ok c -> geom_ok (Z.eqb 0) (w_ct c) (GColl ct' gs) = true ->
+  is_empty (GColl ct' gs) = false -> cnt_ok gs = true -> ids_ok c (GColl ct' gs) ->
+  Forall (gspec (sub_cfg c)) gs ->
+  gspec c (GColl ct' gs).
+Proof.
+  intros Hc Hok Hne Hcnt Hids HF. set (ct := w_ct c) in *.
+  pose proof Hok as Hok0.
+  cbn [geom_ok] in Hok. apply andb_true_iff in Hok. destruct Hok as [Hct Hoks].
+  apply ct_eqb_eq in Hct. subst ct'.
+  set (st0 := init_wst (dim ct)).
+  destruct (coll_members c gs st0 HF (init_wst_ok _)) as [bs [st [E [Hst [Hlen [Hbb Hpar]]]]]].
+  assert (Hidlen : w_hasids c = true -> length (w_ids c) = length gs).
+  { intros Hh. exact (Hids Hh Hne). }
+  pose proof Hc as [Hc1 [Hc2 [Hc3 Hc4]]].
+  destruct (ids_spec c (length gs) 2 ltac:(lia) Hcnt Hc4 Hidlen) as [idb [Eids HparL]].
+  assert (Htw : twrite c (GColl ct gs) = Ok (form c 7%N st (count_bytes gs ++ idb ++ bs), st)).
+  { rewrite twrite_coll. fold ct. rewrite ct_eqb_refl. cbn [negb]. rewrite Hne, Eids. cbn [bind].
+    fold st0. rewrite E. reflexivity. }
+  assert (Hbb' : bb_state st = fold_left env_step (gpts ct (GColl ct gs)) None).
+  { rewrite Hbb. unfold gpts at 2. cbn [geom_vs]. rewrite map_flat_map. reflexivity. }
+  finish_gspec (form c 7%N st (count_bytes gs ++ idb ++ bs)) st Htw Hst Hbb'.
+  intros fuel rest a Hf Hlen63. destruct fuel as [|f]; [lia|].
+  cbn [rd_geom].
+  unfold tolerated, expected_hdr, dec_ids. rewrite Hne. cbn [geom_type kind_of].
+  eapply glue; try assumption; try (cbn; lia).
+  intros sz.
+  cbn [h_kind hdr_of h_empty h_hasids]. rewrite hdr_ct. fold ct.
+  rewrite count_bytes_assoc.
+  eapply parsesL_bind; [exact HparL| |lia].
+  cbn [fst snd]. rewrite <- (app_nil_r bs).
+  assert (Hfl : (length bs < f)%nat).
+  { unfold form in Hf. rewrite !app_length in Hf. cbn [length] in Hf. lia. }
+  assert (H63 : (Z.of_nat (length bs) < two63)%Z).
+  { unfold form in Hlen63. rewrite !app_length in Hlen63. cbn [length] in Hlen63. lia. }
+  eapply parses_bind.
+  - apply (tloop_in_parses (stepf f ct) _ _ _ _ (length gs)); [|lia].
+    intros fuel' Hfu. apply Hpar; assumption.
+  - cbn [fst snd].
+    assert (Hmap : map (tol_child ct) gs = map tol_member gs).
+    { apply map_ext_in. intros x Hx. apply tol_child_member.
+      apply forallb_Forall in Hoks. rewrite Forall_forall in Hoks. apply Hoks. exact Hx. }
+    fold ct. rewrite Hmap.
+    assert (Hnil : map tol_member gs <> []) by (destruct gs; [cbn in Hne; discriminate|discriminate]).
+    rewrite (new_collection_id ct (map tol_member gs) Hnil).
+    + cbn [tol_member]. rewrite Hne. apply parses_ret.
+    + apply forallb_Forall. apply Forall_map. apply forallb_Forall in Hoks.
+      eapply Forall_impl; [|exact Hoks]. intros x Hx. apply tol_member_ok. exact Hx.
+Qed.
+
+(* the induction over nested geometries *)
+Lemma ids_ok_sub c x : ids_ok (sub_cfg c) x.
+Proof. intros H. cbn in H. discriminate. Qed.
+
+Theorem twrite_gspec : forall (g : zgeom) c,
+  cfg_ok c -> geom_ok (Z.eqb 0) (w_ct c) g = true ->
+  geom_dom (ring_dom (w_close c)) g = true -> ids_ok c g -> gspec c g.
+Proof.
+  induction g as [p|l|p|ct' ps|ct' ls|ct' ps|ct' gs IH] using geomT_ind'; intros c Hc Hok Hdom Hids;
+    pose proof (proj2 (force_geom_id _ _ Hok)) as Hct;
+    pose proof Hc as [Hc1 _];
+    match goal with |- gspec _ ?g => destruct (is_empty g) eqn:He end;
+    try (apply gspec_empty; assumption).
+  - apply gspec_point; try assumption.
+    destruct (w_hasids c) eqn:Eh; [|reflexivity]. exfalso. exact (Hids Eh He).
+  - apply gspec_line; try assumption.
+    destruct (w_hasids c) eqn:Eh; [|reflexivity]. exfalso. exact (Hids Eh He).
+  - apply gspec_poly; try assumption.
+    destruct (w_hasids c) eqn:Eh; [|reflexivity]. exfalso. exact (Hids Eh He).
+  - apply gspec_mpoint; assumption.
+  - apply gspec_mline; assumption.
+  - apply gspec_mpoly; assumption.
+  - cbn [geom_dom] in Hdom. apply andb_true_iff in Hdom. destruct Hdom as [Hcnt Hdoms].
+    apply gspec_coll; try assumption.
+    cbn [geom_ok] in Hok. apply andb_true_iff in Hok. destruct Hok as [_ Hoks].
+    apply forallb_Forall in Hoks. apply forallb_Forall in Hdoms.
+    rewrite Forall_forall in *. intros x Hx. apply IH; [exact Hx|apply sub_cfg_ok; exact Hc| | |apply ids_ok_sub].
+    + apply Hoks. exact Hx.
+    + apply Hdoms. exact Hx.
+Qed.
+
+(* ---- from MarshalTWKB's options to the writer ---- *)
+Definition cfg_of (o : topts) (g : zgeom) : wcfg :=
+  let ct := geom_ct g in
+  {| w_hasz := has_z ct; w_hasm := has_m ct; w_pxy := o_pxy o;
+     w_pz := if has_z ct then match o_pz o with Some z => z | None => o_pxy o end else 0%Z;
+     w_pm := if has_m ct then match o_pm o with Some m => m | None => o_pxy o end else 0%Z;
+     w_size := o_size o; w_bbox := o_bbox o; w_close := o_close o; w_ids := o_ids o |}.
+
+Lemma cfg_of_ct o g : w_ct (cfg_of o g) = geom_ct g.
+Proof. unfold w_ct, cfg_of. cbn. apply mk_ct_eta. Qed.
+
+Lemma prec_bad_false lo p : prec_bad lo p = false -> (lo <= p <= 7)%Z.
+Proof. unfold prec_bad. intros H. apply orb_false_iff in H. lia. Qed.
+
+(* a non-empty geometry of the domain has a vertex *)
+Lemma nonempty_has_vs rp : (forall l, rp l = true -> line_vs l <> []) ->
+  forall g : zgeom, geom_dom rp g = true -> is_empty g = false -> geom_vs g <> [].
+Proof.
+  intros Hrp.
+  assert (Hfm : forall {A} (e : A -> bool) (vs : A -> list (vtx Z)) l,
+             (forall x, In x l -> e x = false -> vs x <> []) -> forallb e l = false -> flat_map vs l <> []).
+  { intros A e vs l H. induction l as [|x l IH]; cbn [forallb flat_map]; intros Hl; [discriminate|].
+    destruct (e x) eqn:Ex.
+    - cbn [andb] in Hl. intros E. apply app_eq_nil in E. destruct E as [_ E]. revert E.
+      apply IH; [intros y Hy; apply H; right; exact Hy|exact Hl].
+    - intros E. apply app_eq_nil in E. destruct E as [E _]. revert E. apply H; [left; reflexivity|exact Ex]. }
+  assert (Hpoly : forall p : polyT Z, poly_dom rp p = true -> poly_empty p = false -> poly_vs p <> []).
+  { intros [c' rs] Hd He. unfold poly_dom in Hd. cbn [poly_rings] in Hd.
+    apply andb_true_iff in Hd. destruct Hd as [_ Hd]. unfold poly_vs. cbn [poly_rings].
+    destruct rs as [|r rs]; [cbn in He; discriminate|]. cbn [flat_map forallb] in *.
+    apply andb_true_iff in Hd. destruct Hd as [Hr _]. intros E. apply app_eq_nil in E.
+    destruct E as [E _]. exact (Hrp r Hr E). }
+  induction g as [p|l|p|c ps|c ls|c ps|c gs IH] using geomT_ind'; cbn [is_empty geom_vs geom_dom]; intros Hd He.
+  - destruct p as [c' [v|]]; cbn in *; [discriminate|discriminate].
+  - destruct l as [c' [|v vs]]; cbn in *; [discriminate|discriminate].
+  - apply Hpoly; assumption.
+  - apply (Hfm _ (@point_empty Z)); [|exact He]. intros [c' [v|]] _; cbn; [discriminate|discriminate].
+  - apply (Hfm _ (@line_empty Z)); [|exact He]. intros [c' [|v vs]] _; cbn; [discriminate|discriminate].
+  - apply andb_true_iff in Hd. destruct Hd as [_ Hd].
+    apply (Hfm _ (@poly_empty Z)); [|exact He]. intros p Hp Hpe. apply Hpoly; [|exact Hpe].
+    apply forallb_Forall in Hd. rewrite Forall_forall in Hd. apply Hd. exact Hp.
+  - apply andb_true_iff in Hd. destruct Hd as [_ Hd].
+    apply (Hfm _ (@is_empty Z)); [|exact He]. intros x Hx Hxe.
+    rewrite Forall_forall in IH. apply IH; [exact Hx| |exact Hxe].
+    apply forallb_Forall in Hd. rewrite Forall_forall in Hd. apply Hd. exact Hx.
+Qed.
+
+Lemma ring_dom_nonempty close l : ring_dom close l = true -> line_vs l <> [].
+Proof.
+  unfold ring_dom. intros H. apply andb_true_iff in H. destruct H as [_ H].
+  destruct (line_vs l); [discriminate|discriminate].
+Qed.
+
+Lemma fold_env_some l : l <> [] -> forall A, exists mm, fold_left env_step l A = Some mm.
+Proof.
+  induction l as [|p l IH]; intros Hne A; [congruence|]. cbn [fold_left].
+  destruct l as [|q l].
+  - cbn [fold_left]. destruct A; cbn [env_step]; eexists; reflexivity.
+  - apply IH. discriminate.
+Qed.
+
+Lemma bbox_pairs_raw mm : Forall i64pair mm -> bbox_pairs (length mm) (raw_bbox mm) = Ok mm.
+Proof.
+  induction 1 as [|m mm [H1 [H2 H3]] HF IH]; [reflexivity|].
+  cbn [length raw_bbox flat_map app bbox_pairs]. fold (raw_bbox mm). rewrite IH. cbn [bind].
+  destruct m as [mn mx]. cbn [fst snd] in *. rewrite wrap64_delta by exact H2.
+  f_equal. f_equal. f_equal; lia.
+Qed.
+
+Lemma opts_cfg_ok o g : opts_dom o g = true -> cfg_ok (cfg_of o g) /\ ids_ok (cfg_of o g) g /\
+  match o_ids o, geom_type g with
+  | _ :: _, (TPoint | TLine | TPoly) => true
+  | _, _ => false
+  end = false.
+Proof.
+  unfold opts_dom. intros H.
+  apply andb_true_iff in H. destruct H as [H Hm].
+  apply andb_true_iff in H. destruct H as [H Hi].
+  apply andb_true_iff in H. destruct H as [H Hpm].
+  apply andb_true_iff in H. destruct H as [Hpxy Hpz].
+  apply negb_true_iff in Hpxy, Hpz, Hpm.
+  apply prec_bad_false in Hpxy, Hpz, Hpm. unfold prec_of in *.
+  split; [|split].
+  - unfold cfg_ok, cfg_of. cbn [w_pxy w_pz w_pm w_ids]. repeat split; try lia.
+    apply forallb_Forall in Hi. eapply Forall_impl; [|exact Hi]. intros x Hx. apply in_i64b_iff. exact Hx.
+  - unfold ids_ok, cfg_of, w_hasids. cbn [w_ids]. intros Hh He.
+    destruct (o_ids o) as [|i ids]; [discriminate|].
+    destruct g; try discriminate; rewrite He in Hm; cbn [orb] in Hm; apply Nat.eqb_eq in Hm; symmetry; exact Hm.
+  - destruct (o_ids o) as [|i ids]; [reflexivity|]. destruct g; try discriminate; reflexivity.
+Qed.
+
+Lemma info_expected o g st len :
+  opts_dom o g = true -> geom_dom (ring_dom (o_close o)) g = true ->
+  bb_state st = fold_left env_step (gpts (geom_ct g) g) None ->
+  info_of (expected_hdr (cfg_of o g) g st len) (dec_ids (cfg_of o g) g) = expected_info o g len.
+Proof.
+  intros Ho Hd Hbb. unfold expected_hdr, expected_info, dec_ids.
+  destruct (is_empty g) eqn:He.
+  - unfold info_of, empty_hdr. cbn. reflexivity.
+  - unfold info_of, hdr_of, h_ct. cbn [h_kind h_pxy h_hasz h_hasm h_pz h_pm h_empty h_hassize h_size
+                                      h_hasbbox h_bbox h_hasids cfg_of w_hasz w_hasm w_pxy w_pz w_pm
+                                      w_size w_bbox w_ids].
+    rewrite mk_ct_eta.
+    f_equal; try (destruct (has_z (geom_ct g)); reflexivity);
+      try (destruct (has_m (geom_ct g)); reflexivity); try (destruct (o_size o); reflexivity).
+    + destruct (o_bbox o); [|reflexivity].
+      assert (Hne : gpts (geom_ct g) g <> []).
+      { unfold gpts. intros E. apply map_eq_nil in E. revert E.
+        apply (nonempty_has_vs (ring_dom (o_close o))); [apply ring_dom_nonempty|exact Hd|exact He]. }
+      destruct (fold_env_some _ Hne None) as [mm Emm].
+      unfold env_of, geom_pts. unfold gpts in *. rewrite Emm in *.
+      unfold bb_state in Hbb. destruct (ws_valid st); [|discriminate]. inversion Hbb; subst mm.
+      reflexivity.
+    + destruct (opts_cfg_ok o g Ho) as [_ [_ Hm]].
+      unfold w_hasids, cfg_of. cbn [w_ids]. destruct (o_ids o) as [|i ids] eqn:Ei; [reflexivity|].
+      destruct g; cbn [geom_type] in Hm; try discriminate; reflexivity.
+Qed.
+
+Theorem twkb_roundtrip_lemma o g :
+  wf_twkb o g = true ->
+  exists b, tmarshal o g = Ok b /\
+    ((Z.of_nat (length b) < two63)%Z ->
+     tdec b = Ok (tolerated g, expected_info o g (length b))).
+Proof.
+  unfold wf_twkb. intros H.
+  apply andb_true_iff in H. destruct H as [H Ho].
+  apply andb_true_iff in H. destruct H as [Hcons Hd].
+  destruct (opts_cfg_ok o g Ho) as [Hc [Hids Hm]].
+  unfold consistent in Hcons.
+  assert (Hok : geom_ok (Z.eqb 0) (w_ct (cfg_of o g)) g = true) by (rewrite cfg_of_ct; exact Hcons).
+  assert (Hd' : geom_dom (ring_dom (w_close (cfg_of o g))) g = true) by exact Hd.
+  destruct (twrite_gspec g (cfg_of o g) Hc Hok Hd' Hids) as [doc [st [E [Hst [Hl [Hbb Hdec]]]]]].
+  exists doc. split.
+  - unfold tmarshal. destruct Hc as [Hc1 [Hc2 [Hc3 _]]]. cbn [cfg_of w_pxy w_pz w_pm] in Hc1, Hc2, Hc3.
+    assert (Hp : prec_bad (-8) (o_pxy o) = false) by (unfold prec_bad; lia).
+    rewrite Hp. cbn [orb].
+    match goal with |- (if prec_bad 0 ?a || prec_bad 0 ?b then _ else _) = _ =>
+      assert (Hp2 : prec_bad 0 a = false) by (unfold prec_bad; lia);
+      assert (Hp3 : prec_bad 0 b = false) by (unfold prec_bad; lia) end.
+    rewrite Hp2, Hp3. cbn [orb]. rewrite Hm.
+    change (twrite _ g) with (twrite (cfg_of o g) g). rewrite E. reflexivity.
+  - intros H63. unfold tdec, tdec_full, dec_full.
+    destruct (Hdec (S (length doc)) [] 0%N ltac:(lia) H63) as [a' Ed].
+    rewrite app_nil_r in Ed. rewrite Ed.
+    rewrite cfg_of_ct in Hbb. rewrite (info_expected o g st (length doc) Ho Hd Hbb). reflexivity.
+Qed.
+
+(* ---- header-only readers agree with the full decode, for every byte string ---- *)
+Definition env_view (i : tinfo) : outcome (option (ctype * list (Z * Z))) :=
+  match i_bbox i with
+  | None => Ok None
+  | Some l => do ps <- bbox_pairs (dim (i_ct i)) l; Ok (Some (i_ct i, ps))
+  end.
+
+Lemma tbind_ok {A B} (m : TP A) (f : A -> TP B) s b s' :
+  tbind m f s = TOk b s' -> exists a s1, m s = TOk a s1 /\ f a s1 = TOk b s'.
+Proof. unfold tbind. destruct (m s) as [a s1| |]; try discriminate. eauto. Qed.
+
+Lemma count_ids_inv hasids k s n ids s' :
+  count_and_ids hasids k s = TOk (n, ids) s' ->
+  if hasids then exists cnt s1 s2, rd_uv s = TOk cnt s1 /\ parse_ids cnt s1 = TOk ids s2
+  else ids = [].
+Proof.
+  unfold count_and_ids. intros H.
+  apply tbind_ok in H. destruct H as [cnt [s1 [E1 H]]].
+  apply tbind_ok in H. destruct H as [ids' [s2 [E2 H]]].
+  apply tbind_ok in H. destruct H as [u [s3 [E3 H]]].
+  unfold tret in H. inversion H; subst.
+  destruct hasids.
+  - exists cnt, s1, s2. split; assumption.
+  - unfold tret in E2. inversion E2. reflexivity.
+Qed.
+
+Lemma rd_geom_inv f s g h ids s' :
+  zrd_geom (S f) s = TOk (g, h, ids) s' ->
+  exists s1, parse_headers s = TOk h s1 /\
+    (h_empty h = false -> (4 <= h_kind h)%N -> h_hasids h = true ->
+     exists cnt s2 s3, rd_uv s1 = TOk cnt s2 /\ parse_ids cnt s2 = TOk ids s3) /\
+    (h_hasids h = false -> ids = []).
+Proof.
+  cbn [rd_geom]. intros H. apply tbind_ok in H. destruct H as [h0 [s1 [E1 H]]].
+  assert (Hmulti : forall {A} k (step : list Z -> TP (A * list Z)) (mk : list A -> zgeom) ref,
+    (doT ci <- count_and_ids (h_hasids h0) k;
+     doT r <- tloop_in (fst ci) step ref; tret (mk (fst r), h0, snd ci)) s1 = TOk (g, h, ids) s' ->
+    h = h0 /\ (if h_hasids h0 then exists cnt s2 s3, rd_uv s1 = TOk cnt s2 /\ parse_ids cnt s2 = TOk ids s3
+               else ids = [])).
+  { intros A k step mk ref Hm. apply tbind_ok in Hm. destruct Hm as [[n ids'] [s2 [E2 Hm]]].
+    apply tbind_ok in Hm. destruct Hm as [r [s3 [E3 Hm]]]. unfold tret in Hm. inversion Hm; subst.
+    split; [reflexivity|]. cbn [snd]. exact (count_ids_inv _ _ _ _ _ _ E2). }
+  assert (Hsingle : forall {A} (p : TP (A * list Z)) (mk : A * list Z -> zgeom),
+    (doT r <- p; tret (mk r, h0, @nil Z)) s1 = TOk (g, h, ids) s' -> h = h0 /\ ids = []).
+  { intros A p mk Hm. apply tbind_ok in Hm. destruct Hm as [r [s2 [E2 Hm]]]. unfold tret in Hm.
+    inversion Hm; subst. split; reflexivity. }
+  assert (Hfin : (h = h0 /\ ids = [] /\ (h_empty h0 = true \/ (h_kind h0 < 4)%N)) \/
+                 (h = h0 /\ h_empty h0 = false /\
+                  (if h_hasids h0 then exists cnt s2 s3, rd_uv s1 = TOk cnt s2 /\ parse_ids cnt s2 = TOk ids s3
+                   else ids = []))).
+  { destruct (h_kind h0) as [|[[[|[]|]|[|[]|]|]|[[|[]|]|[|[]|]|]|]] eqn:Ek; try discriminate;
+      destruct (h_empty h0) eqn:Eemp;
+      try (unfold tret in H; inversion H; subst; left; split; [reflexivity|split; [reflexivity|left; reflexivity]]);
+      try (left; destruct (Hsingle _ _ _ H) as [Hh Hi]; split; [exact Hh|split; [exact Hi|right; lia]]);
+      try (right; destruct (Hmulti _ _ _ _ _ H) as [Hh Hi]; split; [exact Hh|split; [reflexivity|exact Hi]]). }
+  exists s1. destruct Hfin as [[-> [-> Hc]]|[-> [Hemp Hi]]].
+  - split; [exact E1|]. split; [|intros _; reflexivity].
+    intros Hne Hk Hid. exfalso. destruct Hc as [Hc|Hc]; [congruence|lia].
+  - split; [exact E1|]. split.
+    + intros _ _ Hid. rewrite Hid in Hi. exact Hi.
+    + intros Hid. rewrite Hid in Hi. exact Hi.
+Qed.
+
+Theorem twkb_header_readers_agree_lemma b g i :
+  tdec b = Ok (g, i) ->
+  tread_size b = Ok (i_size i) /\ tread_env b = env_view i /\
+  (i_empty i = false -> (4 <= i_kind i)%N -> tread_ids b = Ok (i_ids i)).
+Proof.
+  unfold tdec, tdec_full, dec_full. intros H.
+  destruct (zrd_geom (S (length b)) _) as [[[g' h] ids] s'| |] eqn:E; try discriminate.
+  inversion H; subst g' i. clear H.
+  destruct (rd_geom_inv _ _ _ _ _ _ E) as [s1 [Eh [Hids Hnoids]]].
+  repeat split.
+  - unfold tread_size, run, tbind. rewrite Eh. reflexivity.
+  - unfold tread_env, run, tbind, env_view, info_of. cbn [i_bbox i_ct]. rewrite Eh.
+    destruct (h_hasbbox h); [|reflexivity].
+    unfold tlift. destruct (bbox_pairs (dim (h_ct h)) (h_bbox h)); reflexivity.
+  - unfold info_of. cbn [i_empty i_kind i_ids]. intros Hne Hk.
+    unfold tread_ids, run, tbind. rewrite Eh.
+    destruct (h_hasids h) eqn:Ehi; [|reflexivity].
+    destruct (Hids Hne Hk eq_refl) as [cnt [s2 [s3 [E1 E2]]]]. rewrite E1, E2. reflexivity.
+Qed.
+
+(* ---- truth of the headers on the writer's output ---- *)
+Theorem twkb_headers_lemma o g b :
+  wf_twkb o g = true -> tmarshal o g = Ok b -> (Z.of_nat (length b) < two63)%Z ->
+  let i := expected_info o g (length b) in
+  tread_size b = Ok (i_size i) /\ tread_env b = env_view i /\
+  (is_empty g = false -> match g with GMPoint _ _ | GMLine _ _ | GMPoly _ _ | GColl _ _ => True | _ => False end ->
+   tread_ids b = Ok (i_ids i)).
+Proof.
+  intros Hwf Hm H63 i.
+  destruct (twkb_roundtrip_lemma o g Hwf) as [b' [Hm' Hdec]]. rewrite Hm in Hm'. inversion Hm'; subst b'.
+  destruct (twkb_header_readers_agree_lemma b _ _ (Hdec H63)) as [H1 [H2 H3]].
+  split; [exact H1|]. split; [exact H2|].
+  intros He Hk. apply H3.
+  - unfold i, expected_info. rewrite He. reflexivity.
+  - unfold i, expected_info. rewrite He. cbn [i_kind]. destruct g; try contradiction; cbn; lia.
+Qed.
+
+(* size header = number of bytes of the whole document; bbox header = envelope and Z/M ranges *)
+Corollary twkb_size_header_lemma o g b :
+  wf_twkb o g = true -> tmarshal o g = Ok b -> (Z.of_nat (length b) < two63)%Z ->
+  o_size o = true -> is_empty g = false -> tread_size b = Ok (Some (Z.of_nat (length b))).
+Proof.
+  intros Hwf Hm H63 Hs He. destruct (twkb_headers_lemma o g b Hwf Hm H63) as [H _].
+  rewrite H. unfold expected_info. rewrite He, Hs. reflexivity.
+Qed.
+
+Lemma fold_env_inv d l : forall A, env_len d A ->
+  match A with None => True | Some mm => Forall i64pair mm end ->
+  Forall (pt_ok d) l ->
+  match fold_left env_step l A with None => True | Some mm => Forall i64pair mm /\ length mm = d end.
+Proof.
+  induction l as [|p l IH]; intros A HA HI Hl; cbn [fold_left].
+  - destruct A; [split; assumption|exact I].
+  - inversion Hl as [|? ? [Hp1 Hp2] Hl']; subst. apply IH; [apply env_step_len; auto| |exact Hl'].
+    destruct A as [mm|]; cbn [env_step].
+    + cbn [env_len] in HA. clear IH Hl Hl'. revert p HA Hp2. induction HI as [|m mm [M1 [M2 M3]] HF IHm]; intros [|v p] HA Hp2;
+        cbn [combine map]; constructor.
+      * inversion Hp2; subst. unfold i64pair, in_i64 in *. cbn [fst snd]. lia.
+      * apply IHm; [cbn [length] in HA; lia|inversion Hp2; assumption].
+    + clear IH Hl Hl'. induction Hp2 as [|v p Hv HF IHp]; cbn [map]; constructor; auto.
+      unfold i64pair, in_i64 in *. cbn [fst snd]. lia.
+Qed.
+
+Lemma geom_dom_vs rp : (forall l, rp l = true -> line_dom l = true) ->
+  forall g : zgeom, geom_dom rp g = true -> Forall (fun v => vtx_i64 v = true) (geom_vs g).
+Proof.
+  intros Hrp.
+  assert (Hfm : forall {A} (vs : A -> list (vtx Z)) l,
+             Forall (fun x => Forall (fun v => vtx_i64 v = true) (vs x)) l ->
+             Forall (fun v => vtx_i64 v = true) (flat_map vs l)).
+  { intros A vs l H. induction H as [|x l Hx HF IH]; cbn [flat_map]; [constructor|].
+    apply Forall_app. split; assumption. }
+  assert (Hline : forall l : lineT Z, line_dom l = true -> Forall (fun v => vtx_i64 v = true) (line_vs l)).
+  { intros l H. unfold line_dom in H. apply andb_true_iff in H. destruct H as [_ H].
+    apply forallb_Forall. exact H. }
+  assert (Hpoly : forall p : polyT Z, poly_dom rp p = true -> Forall (fun v => vtx_i64 v = true) (poly_vs p)).
+  { intros p H. unfold poly_dom in H. apply andb_true_iff in H. destruct H as [_ H].
+    unfold poly_vs. apply Hfm. apply forallb_Forall in H. eapply Forall_impl; [|exact H].
+    intros l Hl. apply Hline. apply Hrp. exact Hl. }
+  induction g as [p|l|p|c ps|c ls|c ps|c gs IH] using geomT_ind'; cbn [geom_vs geom_dom]; intros Hd.
+  - unfold point_vs. destruct (point_c p); [constructor; [exact Hd|constructor]|constructor].
+  - apply Hline. exact Hd.
+  - apply Hpoly. exact Hd.
+  - apply andb_true_iff in Hd. destruct Hd as [_ Hd]. apply Hfm.
+    apply orb_true_iff in Hd. destruct Hd as [Hd|Hd]; apply forallb_Forall in Hd;
+      (eapply Forall_impl; [|exact Hd]); intros p Hp; unfold point_vs, point_empty in *;
+      destruct (point_c p); try discriminate; repeat constructor; assumption.
+  - apply andb_true_iff in Hd. destruct Hd as [_ Hd]. apply Hfm. apply forallb_Forall in Hd.
+    eapply Forall_impl; [|exact Hd]. intros l Hl. apply Hline. exact Hl.
+  - apply andb_true_iff in Hd. destruct Hd as [_ Hd]. apply Hfm. apply forallb_Forall in Hd.
+    eapply Forall_impl; [|exact Hd]. intros p Hp. apply Hpoly. exact Hp.
+  - apply andb_true_iff in Hd. destruct Hd as [_ Hd]. apply Hfm. apply forallb_Forall in Hd.
+    rewrite Forall_forall in *. intros x Hx. apply IH; [exact Hx|apply Hd; exact Hx].
+Qed.
+
+Lemma ring_dom_line close l : ring_dom close l = true -> line_dom l = true.
+Proof. unfold ring_dom. intros H. apply andb_true_iff in H. apply H. Qed.
+
+(* the bounding-box header is the envelope and the Z/M ranges of the (decoded) integers *)
+Theorem twkb_bbox_header_lemma o g b :
+  wf_twkb o g = true -> tmarshal o g = Ok b -> (Z.of_nat (length b) < two63)%Z ->
+  o_bbox o = true -> is_empty g = false ->
+  exists mm, env_of (geom_pts g) = Some mm /\ tread_env b = Ok (Some (geom_ct g, mm)).
+Proof.
+  intros Hwf Hm H63 Hb He. destruct (twkb_headers_lemma o g b Hwf Hm H63) as [_ [H _]].
+  unfold wf_twkb in Hwf. apply andb_true_iff in Hwf. destruct Hwf as [Hwf Ho].
+  apply andb_true_iff in Hwf. destruct Hwf as [_ Hd].
+  assert (Hne : geom_pts g <> []).
+  { unfold geom_pts. intros E. apply map_eq_nil in E. revert E.
+    apply (nonempty_has_vs (ring_dom (o_close o))); [apply ring_dom_nonempty|exact Hd|exact He]. }
+  destruct (fold_env_some _ Hne None) as [mm Emm]. exists mm. split; [exact Emm|].
+  rewrite H. unfold env_view, expected_info. rewrite He, Hb. cbn [i_bbox i_ct].
+  unfold env_of in *. rewrite Emm.
+  assert (Hpts : Forall (pt_ok (dim (geom_ct g))) (geom_pts g)).
+  { unfold geom_pts. apply Forall_map.
+    pose proof (geom_dom_vs _ (ring_dom_line (o_close o)) g Hd) as Hv.
+    eapply Forall_impl; [|exact Hv]. intros v Hvv. apply vords_pt_ok. exact Hvv. }
+  pose proof (fold_env_inv (dim (geom_ct g)) (geom_pts g) None I I Hpts) as Hinv.
+  rewrite Emm in Hinv. destruct Hinv as [Hi Hl].
+  fold (raw_bbox mm). rewrite <- Hl. rewrite bbox_pairs_raw by exact Hi. reflexivity.
+Qed.
+
+(* ---- rejection ---- *)
+Lemma wr_ids_mismatch c n : w_hasids c = true -> Nat.eqb n (length (w_ids c)) = false -> wr_ids c n = Err EOther.
+Proof. intros H1 H2. unfold wr_ids. rewrite H1, H2. reflexivity. Qed.
+
+Lemma twrite_id_mismatch c g :
+  w_hasids c = true -> is_empty g = false ->
+  match g with
+  | GMPoint _ l => Nat.eqb (length l) (length (w_ids c)) = false
+  | GMLine _ l => Nat.eqb (length l) (length (w_ids c)) = false
+  | GMPoly _ l => Nat.eqb (length l) (length (w_ids c)) = false
+  | GColl _ l => Nat.eqb (length l) (length (w_ids c)) = false
+  | _ => False
+  end -> exists e, twrite c g = Err e.
+Proof.
+  intros Hh He Hm. destruct g as [p|l|p|ct ps|ct ls|ct ps|ct gs]; try contradiction.
+  - cbn [twrite geom_ct is_empty]. destruct (negb (ct_eqb ct (w_ct c))); [eexists; reflexivity|].
+    cbn [is_empty] in He. rewrite He. rewrite (wr_ids_mismatch c _ Hh Hm). eexists; reflexivity.
+  - cbn [twrite geom_ct is_empty]. destruct (negb (ct_eqb ct (w_ct c))); [eexists; reflexivity|].
+    cbn [is_empty] in He. rewrite He. rewrite (wr_ids_mismatch c _ Hh Hm). eexists; reflexivity.
+  - cbn [twrite geom_ct is_empty]. destruct (negb (ct_eqb ct (w_ct c))); [eexists; reflexivity|].
+    cbn [is_empty] in He. rewrite He. rewrite (wr_ids_mismatch c _ Hh Hm). eexists; reflexivity.
+  - rewrite twrite_coll. destruct (negb (ct_eqb ct (w_ct c))); [eexists; reflexivity|].
+    rewrite He. rewrite (wr_ids_mismatch c _ Hh Hm). eexists; reflexivity.
+Qed.
+
+Theorem twkb_rejects_lemma o g : must_reject o g = true -> exists e, tmarshal o g = Err e.
+Proof.
+  unfold must_reject, tmarshal, prec_of. cbv zeta. intros H.
+  destruct (prec_bad (-8) (o_pxy o) || _ || _) eqn:Ep; [eexists; reflexivity|].
+  cbn [orb] in H.
+  destruct (o_ids o) as [|i ids] eqn:Ei; [discriminate|].
+  match goal with |- context [twrite ?cfg g] => set (c := cfg) end.
+  assert (Hh : w_hasids c = true) by reflexivity.
+  assert (Hids : w_ids c = i :: ids) by reflexivity.
+  destruct g as [p|l|p|ct ps|ct ls|ct ps|ct gs]; cbn [geom_type]; try (eexists; reflexivity);
+    apply andb_true_iff in H; destruct H as [He Hl]; apply negb_true_iff in He, Hl.
+  - destruct (twrite_id_mismatch c (GMPoint ct ps) Hh He) as [e E]; [rewrite Hids; exact Hl|].
+    rewrite E. eexists; reflexivity.
+  - destruct (twrite_id_mismatch c (GMLine ct ls) Hh He) as [e E]; [rewrite Hids; exact Hl|].
+    rewrite E. eexists; reflexivity.
+  - destruct (twrite_id_mismatch c (GMPoly ct ps) Hh He) as [e E]; [rewrite Hids; exact Hl|].
+    rewrite E. eexists; reflexivity.
+  - destruct (twrite_id_mismatch c (GColl ct gs) Hh He) as [e E]; [rewrite Hids; exact Hl|].
+    rewrite E. eexists; reflexivity.
+Qed.
+
+(* ---- the executable statement is true of the model's own output ---- *)
+Lemma list_eqb_refl {A} (f : A -> A -> bool) l : Forall (fun x => f x x = true) l -> list_eqb f l l = true.
+Proof. induction 1; cbn [list_eqb]; [reflexivity|]. rewrite H, IHForall. reflexivity. Qed.
+Lemma vtx_eqb_refl v : vtx_eqb v v = true.
+Proof. apply vtx_eqb_iff. reflexivity. Qed.
+Lemma all_refl {A} (f : A -> A -> bool) (l : list A) : (forall x, f x x = true) -> Forall (fun x => f x x = true) l.
+Proof. intros H. apply Forall_forall. intros x _. apply H. Qed.
+Lemma point_eqb_refl p : point_eqb p p = true.
+Proof.
+  destruct p as [c [v|]]; unfold point_eqb; cbn [point_ct point_c ovtx_eqb]; rewrite ct_eqb_refl;
+    [apply vtx_eqb_refl|reflexivity].
+Qed.
+Lemma line_eqb_refl l : line_eqb l l = true.
+Proof.
+  destruct l as [c vs]. unfold line_eqb. cbn [line_ct line_vs]. rewrite ct_eqb_refl.
+  apply list_eqb_refl. apply all_refl. apply vtx_eqb_refl.
+Qed.
+Lemma poly_eqb_refl p : poly_eqb p p = true.
+Proof.
+  destruct p as [c rs]. unfold poly_eqb. cbn [poly_ct poly_rings]. rewrite ct_eqb_refl.
+  apply list_eqb_refl. apply all_refl. apply line_eqb_refl.
+Qed.
+Lemma geom_eqb_refl : forall g : zgeom, geom_eqb g g = true.
+Proof.
+  induction g as [p|l|p|c ps|c ls|c ps|c gs IH] using geomT_ind'; cbn [geom_eqb].
+  - apply point_eqb_refl.
+  - apply line_eqb_refl.
+  - apply poly_eqb_refl.
+  - rewrite ct_eqb_refl. apply list_eqb_refl. apply all_refl. apply point_eqb_refl.
+  - rewrite ct_eqb_refl. apply list_eqb_refl. apply all_refl. apply line_eqb_refl.
+  - rewrite ct_eqb_refl. apply list_eqb_refl. apply all_refl. apply poly_eqb_refl.
+  - rewrite ct_eqb_refl. cbn [andb]. induction IH as [|x gs Hx HF IHg]; [reflexivity|].
+    rewrite Hx, IHg. reflexivity.
+Qed.
+Lemma oeqb_refl {A} (f : A -> A -> bool) o : (forall x, f x x = true) -> oeqb f o o = true.
+Proof. intros H. destruct o; cbn; auto. Qed.
+Lemma zlist_eqb_refl (l : list Z) : list_eqb Z.eqb l l = true.
+Proof. apply list_eqb_refl. apply all_refl. apply Z.eqb_refl. Qed.
+Lemma info_eqb_refl i : info_eqb i i = true.
+Proof.
+  unfold info_eqb. rewrite N.eqb_refl, Z.eqb_refl, ct_eqb_refl, !N.eqb_refl, eqb_reflx.
+  rewrite (oeqb_refl Z.eqb _ Z.eqb_refl), !(oeqb_refl (list_eqb Z.eqb) _ zlist_eqb_refl). reflexivity.
+Qed.
+
+(* the executable statement S evaluated by the driver is true of the model's own output *)
+Theorem twkb_ok_model_lemma o g b :
+  wf_twkb o g = true -> tmarshal o g = Ok b -> (Z.of_nat (length b) < two63)%Z -> twkb_ok o g b = true.
+Proof.
+  intros Hwf Hm H63. destruct (twkb_roundtrip_lemma o g Hwf) as [b' [Hm' Hd]].
+  rewrite Hm in Hm'. inversion Hm'; subst b'. unfold twkb_ok. rewrite (Hd H63).
+  rewrite geom_eqb_refl, info_eqb_refl. reflexivity.
 Qed.
